@@ -91,7 +91,7 @@ class _TextCueParser:
 
     if tag.startswith("ruby"):
       if self.ruby_rbc is not None or self.ruby_rtc is not None:
-        raise RuntimeError("Nested ruby tags are not allowed.")
+        raise ValueError("Nested ruby tags are not allowed.")
       span = model.Ruby(self.parent.get_doc())
 
       # wrap <rb> and <rt> into <rbc> and <rtc>
@@ -103,7 +103,11 @@ class _TextCueParser:
       self.parent = span
       return
 
-    if tag.startswith("rt"):
+    if tag.startswith("rt") and self.ruby_rtc is None:
+      # handled as a span below
+      LOGGER.warning("rt tag outside of a ruby tag at line %s", self.line_num)
+
+    elif tag.startswith("rt"):
       span = model.Rt(self.parent.get_doc())
       self.ruby_rtc.push_child(span)
       self.parent = span
@@ -154,6 +158,10 @@ class _TextCueParser:
       return
 
   def _handle_endtag(self, _token: EndTagToken):
+
+    if self.parent is self.paragraph:
+      LOGGER.warning("Ignoring end tag without start tag at line %s", self.line_num)
+      return
 
     if _token.tag.lower() == "ruby" and isinstance(self.parent, model.Rt):
       # the last </rt> of a ruby may be omitted
@@ -464,6 +472,10 @@ def to_model(data_file: typing.IO, _config = None, progress_callback=lambda _: N
   for line_index, line in enumerate(_none_terminated(lines)):
 
     if state is _State.START:
+      if line is None:
+        # empty file
+        break
+
       if not line.startswith("WEBVTT"):
         LOGGER.warning("The first line of the file does not start with WEBVTT")
       state = _State.LOOKING
